@@ -150,6 +150,11 @@ class DocGen:
             if r < 0.35:
                 if rng.random() < 0.3:
                     self.decl("f%d" % n, "int f%d, g%d;" % (n, n), indent, can_trail=False, second="g%d" % n)
+                elif rng.random() < 0.3:
+                    # an initialiser that spans several lines: the trailing comment follows the closing ';'
+                    init = rng.choice(["[2] = {\n%s  1,\n%s  2,\n%s}" % (indent, indent, indent), " =\n%s  0x0f |\n%s  0xf0" % (indent, indent),
+                                       "{\n%s  3\n%s}" % (indent, indent)])
+                    self.decl("f%d" % n, "int f%d%s;" % (n, init), indent, can_trail=True)
                 else:
                     self.decl("f%d" % n, "int f%d;" % n, indent, can_trail=True)
             elif r < 0.55:
@@ -176,6 +181,10 @@ class DocGen:
             if r < 0.2:
                 if rng.random() < 0.3:
                     self.decl("v%d" % n, "int v%d = 1, w%d;" % (n, n), indent, second="w%d" % n)
+                elif rng.random() < 0.3:
+                    init = rng.choice(["[2] = {\n%s  1,\n%s  2,\n%s}" % (indent, indent, indent), " =\n%s  0x0f |\n%s  0xf0" % (indent, indent),
+                                       " = f(1,\n%s      2)" % indent])
+                    self.decl("v%d" % n, "int v%d%s;" % (n, init), indent, can_trail=True)
                 else:
                     self.decl("v%d" % n, "int v%d;" % n, indent, can_trail=True)
             elif r < 0.3:
